@@ -105,6 +105,7 @@ type Explorer struct {
 	Trace     bool
 	Emitted   []string
 	assumed   map[string]bool
+	accesses  map[string]*accessSummary
 }
 
 // Solvers returns the used solver handles (for statistics).
